@@ -953,6 +953,7 @@ class Parser:
                 "type_def",
                 "type_size",
                 "hexdump",
+                "fields",
             )
 
             for fname, fstr in fields.items():
